@@ -48,6 +48,7 @@ def gen(run_seed: int, tier: str) -> dict:
         F = 1 + t.draw(4, "Fsmall")
     F = max(1, min(F, 40))
     world = cpool.gen_world(t, F)
+    world.pop("meta", None)
     rels = sorted(world["files"])
     sc = {"entry": entry, "W": W, "cpu": cpu, "world": world, "recursive": not t.chance(1, 6, "norec"),
           "knobs": {"shape": t.pick(SHAPES + ["random", "random"], "shape"),
@@ -186,9 +187,25 @@ def _execute(zy, sc: dict, W: World) -> dict:
         stats["forks"] = po["counters"].get("forks", 0)
         stats["tasks"] = po["counters"].get("tasks", 0)
         # invariants of the pool contract (each item dispatched once; yielded once when collected)
-        disp = [e[1] for e in po["events"] if e[0] == "dispatch"]
-        if len(disp) != len(set(disp)) or (summ["W"] and sorted(disp) != list(range(summ["submitted"]))):
-            harness = "SimPool invariant broken: dispatch-once"
+        pools, cur = [], None       # one segment per pool use (a CLI run over several directories uses several)
+        for e in po["events"]:
+            if e[0] == "submit" and (cur is None or cur["closed"]):
+                cur = {"submit": 0, "dispatch": [], "yield": [], "closed": False}
+                pools.append(cur)
+            if cur is None:
+                continue
+            if e[0] == "submit":
+                cur["submit"] += 1
+            elif e[0] == "dispatch":
+                cur["dispatch"].append(e[1])
+            elif e[0] == "yield":
+                cur["yield"].append(e[1])
+            elif e[0] in ("shutdown", "broken"):
+                cur["closed"] = True
+        stats["pools"] = len(pools)
+        for pl in pools:
+            if sorted(pl["dispatch"]) != list(range(pl["submit"])) or len(set(pl["yield"])) != len(pl["yield"]):
+                harness = "SimPool invariant broken: every submitted item is dispatched exactly once and yielded at most once"
         only_a, only_b = multiset_diff(a, b)
         if only_a or only_b:
             if sc["entry"] == "cli":
